@@ -333,7 +333,7 @@ func propC18(w *World, r *Report) {
 		if hdrCall == nil {
 			r.Unknown("W2", "header read of the connection handler", w.Pos(hc.Pos()), "no call to headers.ReadHeaderInfo found")
 		} else {
-			checkSingleBufferedReader(w, r, e, "W2", "reader: the header and every frame are read through the same bufio.Reader", hc, hdrCall, fills)
+			checkSingleBufferedReader(w, r, e, "W2", "reader: the header and every frame are read through the same bufio.Reader", []*ssa.Function{hc}, hdrCall, fills, unwrapIface)
 		}
 	}
 	// W4: close on every exit after the goroutine started
